@@ -2,14 +2,15 @@
 """seedstore.py <seedout id> <name> <property> <needs> < summary.json : stores a confirmed seeded change under /verif/seeded/<name>/"""
 import json, os, shutil, sys
 sid, name, prop, needs = sys.argv[1:5]
+SRC = os.environ.get("SEED_SRC", "/tmp/seedout")
 summ = json.load(sys.stdin)
 d = "/verif/seeded/%s" % name
 os.makedirs(d + "/demo", exist_ok=True)
-shutil.copy("/tmp/seedout/%s/patch.diff" % sid, d + "/patch.diff")
-for f in os.listdir("/tmp/seedout/%s/demo" % sid):
-    shutil.copy("/tmp/seedout/%s/demo/%s" % (sid, f), d + "/demo/" + f)
-if os.path.exists("/tmp/seedout/%s/README.md" % sid):
-    shutil.copy("/tmp/seedout/%s/README.md" % sid, d + "/README.md")
+shutil.copy(SRC + "/%s/patch.diff" % sid, d + "/patch.diff")
+for f in os.listdir(SRC + "/%s/demo" % sid):
+    shutil.copy(SRC + "/%s/demo/%s" % (sid, f), d + "/demo/" + f)
+if os.path.exists(SRC + "/%s/README.md" % sid):
+    shutil.copy(SRC + "/%s/README.md" % sid, d + "/README.md")
 meta = {"breaks_property": prop, "needs_to_manifest": needs, "confirmed_on_head": summ.get("head"),
         "confirmation": {k: summ.get(k) for k in ("demo_without_change", "suite_with_change", "demo_with_change")},
         "ran": "tools/seedconfirm.py (fresh worktree of /repo HEAD; demo without the change, repository test packages with the change, demo with the change, then ./check <id> quick with VERIF_REPO=<worktree>)",
